@@ -27,3 +27,4 @@ PROP = {
     "assumptions": STD_ASSUME + ["Integrate tolerance carries the absolute-coordinate term eps*S*(|x_l|+|x_r|) per piece, inherent to the antiderivative form d*x used by the library",
                                  "prefactors are kept within 1e-32..1e32 and never 0"],
 }
+PROP["level_text"] += ' Integrate is also judged in long double with prefactors as large (small) as the table allows; regular grids with local refinement are part of the tables.'
